@@ -274,7 +274,8 @@ public:
         if (dims == _view.dimensions() && _align_in_bytes == alignment)
             return;
 
-        _align_in_bytes = alignment;
+        std::size_t const old_alignment = _align_in_bytes;
+        _align_in_bytes = alignment;   // total_allocated_size_in_bytes reads it
 
         if (_allocated_bytes >= total_allocated_size_in_bytes(dims))
         {
@@ -284,6 +285,9 @@ public:
         }
         else
         {
+            // if the construction throws this image is unchanged, its alignment record included: with the new
+            // value left behind, the same call repeated was taken for a no-op (same dimensions, same alignment)
+            _align_in_bytes = old_alignment;
             image tmp(dims, alignment, _alloc);   // keep this image's allocator
             swap(tmp);
         }
@@ -299,7 +303,8 @@ public:
         if (dims == _view.dimensions() && _align_in_bytes == alignment)
             return;
 
-        _align_in_bytes = alignment;
+        std::size_t const old_alignment = _align_in_bytes;
+        _align_in_bytes = alignment;   // total_allocated_size_in_bytes reads it
 
         if (_allocated_bytes >= total_allocated_size_in_bytes(dims))
         {
@@ -309,6 +314,7 @@ public:
         }
         else
         {
+            _align_in_bytes = old_alignment;
             image tmp(dims, p_in, alignment, _alloc);   // keep this image's allocator
             swap(tmp);
         }
@@ -325,7 +331,8 @@ public:
         if (dims == _view.dimensions() && _align_in_bytes == alignment && alloc_in == _alloc)
             return;
 
-        _align_in_bytes = alignment;
+        std::size_t const old_alignment = _align_in_bytes;
+        _align_in_bytes = alignment;   // total_allocated_size_in_bytes reads it
 
         if (_allocated_bytes >= total_allocated_size_in_bytes(dims))
         {
@@ -336,6 +343,7 @@ public:
         else
         {
             // the new storage is adopted together with the allocator that made it
+            _align_in_bytes = old_alignment;
             image tmp(dims, alignment, alloc_in);
             move_assign(tmp, propagate_allocators{});
         }
@@ -351,7 +359,8 @@ public:
         if (dims == _view.dimensions() && _align_in_bytes == alignment && alloc_in == _alloc)
             return;
 
-        _align_in_bytes = alignment;
+        std::size_t const old_alignment = _align_in_bytes;
+        _align_in_bytes = alignment;   // total_allocated_size_in_bytes reads it
 
         if (_allocated_bytes >= total_allocated_size_in_bytes(dims))
         {
@@ -361,6 +370,7 @@ public:
         }
         else
         {
+            _align_in_bytes = old_alignment;
             image tmp(dims, p_in, alignment, alloc_in);
             move_assign(tmp, propagate_allocators{});
         }
